@@ -133,11 +133,15 @@ def check_C11(tier, replay=None):
         runs.append(("MC_C11_f4", {"File": F4, "FileSeq": "<- FileSeq4", "Extras": "<- NoExtras", "Siblings": "<- Sib3", "MaxCalls": "1", "RefsOn": "FALSE"}))
         runs.append(("MC_C11_f3x", {"File": F3, "FileSeq": "<- FileSeq3", "Extras": "<- AllExtras", "Siblings": "<- Sib3", "MaxCalls": "3", "RefsOn": "FALSE"}))
         runs.append(("MC_C11_f4refs", {"File": F4, "FileSeq": "<- FileSeq4", "Extras": "<- NoExtras", "Siblings": "<- NoSib", "MaxCalls": "1", "RefsOn": "TRUE"}))
+        F6 = '{"f1.xsd","f2.xsd","f3.xsd","f4.xsd","f5.xsd","f6.xsd"}'
+        runs.append(("MC_C11_f6random", {"File": F6, "FileSeq": "<- FileSeq6", "Extras": "<- NoExtras", "Siblings": "<- Sib3", "MaxCalls": "1", "RefsOn": "TRUE", "Sample": "1500", "_spec": "MCSpecRandom"}))
     z.build_harness()
     all_viol = []
     for name, consts in runs:
         consts = dict(consts, Dev=devs)
-        c = cfg("MCSpec", consts, invariants=["TypeOK", "NoReentry", "NoOverflow", "Once", "NoUnreachable", "DanglingIsError", "RepeatSame", "EmitCase"] + ([] if dev else ["Complete"]),
+        spec_name = consts.pop("_spec", "MCSpec")
+        consts.setdefault("Sample", "1")
+        c = cfg(spec_name, consts, invariants=["TypeOK", "NoReentry", "NoOverflow", "Once", "NoUnreachable", "DanglingIsError", "RepeatSame", "EmitCase"] + ([] if dev else ["Complete"]),
                 properties=["Terminates"])
         res, vocab, cases, _ = mc_run(R, "MC_C11", c, name, workers=8)
         base = len(R.cases)
@@ -148,6 +152,7 @@ def check_C11(tier, replay=None):
         log(f"{name}: {res['distinct']} distinct states, {len(cases)} cases, {res['wall']:.1f}s")
         traces, crashed = z.run_harness(vocab, cases, name)
         tcfg = cfg("TraceSpec", {"File": consts["File"], "Dev": devs, "MaxCalls": consts["MaxCalls"], "RefsOn": consts["RefsOn"]}, post="Accepted")
+
         viol, known, stale, drift = trace_run(R, "Trace_C11", tcfg, traces, "T_" + name)
         R.stale += stale
         for k in known:
@@ -159,7 +164,8 @@ def check_C11(tier, replay=None):
         all_viol += viol
     R.viol = all_viol
     R.samples = R.cases[:2]
-    R.extra["exhaustive"] = True
+    R.extra["exhaustive"] = not any("random" in r[0] for r in runs)
+    R.extra["exhaustive_part"] = "every digraph over 3 (quick) / 4 (thorough) files and every start file; the 6-file graphs of the thorough tier are a seeded random sample"
     R.extra["bounds"] = [r[0] for r in runs]
     return finish(R, "model_checking",
                   "every import digraph over the files (every edge subset, every start) is one TLC initial state; each is concretised, run through the real reader/writer and its trace judged by TLC; a case is distinct by (graph, start)",
